@@ -17,6 +17,12 @@ Proof. exact no_prefix_prefixed. Qed.
 Theorem C24_replay_roundtrip : forall s l, st_breplay s (map (st_bop s) l) = l.
 Proof. exact st_breplay_bop. Qed.
 
+(* Replay into ANOTHER batch (of any table or store): the destination receives the source's operations
+   under the DESTINATION's own key translation, whatever the source's prefix *)
+Theorem C24_replay_into_batch : forall xs xd (ls stored_d : list wop),
+  fold_left (st_badd xd) (st_breplay xs (map (st_bop xs) ls)) stored_d = stored_d ++ map (st_bop xd) ls.
+Proof. exact replay_into_batch. Qed.
+
 (* reads and iteration through a table = the prefix view of the parent *)
 Theorem C24_table_get : forall p u k, wf_st (Tab p u) ->
   st_get (Tab p u) k = kv_get (kv_table_view p (view u)) k.
@@ -132,6 +138,7 @@ Proof. vm_compute. reflexivity. Qed.
 
 Print Assumptions C24_no_prefix_prefixed.
 Print Assumptions C24_replay_roundtrip.
+Print Assumptions C24_replay_into_batch.
 Print Assumptions C24_table_get.
 Print Assumptions C24_table_has.
 Print Assumptions C24_table_iterate.
